@@ -225,7 +225,8 @@ def run(prog, rep, tier):
         sz_ok = sz is not None and ((sz[0] == "sub" and sz[2] in counter and is_sizes(sz[1])) or (zipped is not None and sz == ("elem", zipped)))
         rep.check("CHOICE.distinct", d.recv == RNG and b.get("replace") == ("const", False) and not extra, fwhere(f, d.node),
                   "rng.choice(..., replace=False): distinct variables within an intervention", "targets within an intervention may repeat (replace is not False) or another generator is used")
-        if not sz_ok and sz is not None and (sizes_unread or not plain(sz)) and not (sz[0] == "phi" and tuple_cond(sz[1])):
+        wrong_index = sz is not None and sz[0] == "sub" and is_sizes(sz[1]) and sz[2] not in counter      # the recognised sizes vector, read at another position
+        if not sz_ok and sz is not None and not wrong_index and (sizes_unread or not plain(sz)) and not (sz[0] == "phi" and tuple_cond(sz[1])):
             rep.unk("CHOICE.size", fwhere(f, d.node), "intervention size is %s: not read" % fmt(sz)[:100])
         else:
             rep.check("CHOICE.size", sz_ok, fwhere(f, d.node), "size = sizes[i] with sizes = range draw | [size] * K", "intervention size is %s" % fmt(sz)[:100] if sz else "no size")
